@@ -42,7 +42,13 @@ class BoundCall:
     def run(self, fn, retry):
         args = [arg.value for arg in self.args]
         kwargs = {name: arg.value for name, arg in self.kwargs.items()}
-        self.result.value = retry(fn)(*args, **kwargs)
+        try:
+            self.result.value = retry(fn)(*args, **kwargs)
+        finally:
+            # When fn raises, this frame stays reachable from the error's traceback, and the first
+            # error is kept until the end of the run: do not let it keep the arguments alive.
+            del args, kwargs
+            self.args = self.kwargs = None
 
 
 def _create_bound_call(
